@@ -594,6 +594,48 @@ def run(facts, cg):
                         'the future returned at %s is dropped without being awaited: the operation never happens' % t['loc'])
     instances.append({'rule': 'R-AWAITED', 'obligations': nf, 'futures_checked': nf})
 
+    # ---------------------------------------------------------------- R-AWAITED(pending): a hand-written poll function says "not yet" only when
+    # someone will wake it: every `Poll::Pending` it builds sits behind the Pending answer of something it polled itself with the
+    # caller's context (which registered the waker), or behind a call of the waker.  Arming a timer and returning Pending without
+    # polling it leaves no one to call back: the task sleeps for ever (a lost wake-up; the clone hangs instead of retrying).
+    n_pend = 0
+    for b in facts.bodies.values():
+        if b.generated or not b.id.startswith(('bitar::', 'bita::')) or b.raw.get('coroutine'):
+            continue
+        sites = [(bi, st) for bi in b.live for st in b.blocks[bi]['stmts']
+                 if st['k'] == 'assign' and st['rv']['k'] == 'agg' and st['rv'].get('adt') == 'core::task::poll::Poll' and st['rv'].get('vname') == 'Pending']
+        if not sites:
+            continue
+        dom = b.dominators()
+        inner = []      # blocks entered when an inner poll answered Pending
+        for sbi in b.live:
+            sw = b.blocks[sbi]['term']
+            if sw['k'] != 'switch' or sw['op']['k'] not in ('copy', 'move'):
+                continue
+            ct = simplify(T.of_operand(b, sw['op']))
+            if not (isinstance(ct, tuple) and ct[0] == 'discr'):
+                continue
+            # the answer of a poll itself (not a payload inside it: `Some` / `Err` are discriminant 1 as well)
+            subj = ct[1]
+            alts = subj[1] if isinstance(subj, tuple) and subj[0] == 'phi' else [subj]
+            if not any(isinstance(a_, tuple) and a_[0] == 'call' and (a_[1].split('::')[-1].startswith('poll') or a_[1].split('::')[-1] == 'try_poll') for a_ in alts):
+                continue
+            ty_ = b.lty(sw['op']['pl']['l']) if not sw['op']['pl']['p'] else {}
+            for v, tgt in zip(sw['vals'], sw['targets']):
+                if v == 1:
+                    inner.append(tgt)
+            if 1 not in sw['vals']:
+                inner.append(sw['otherwise'])
+        wakes = [bi for bi, t in b.calls() if 'q' in t['callee'] and callee_q(t).split('::')[-1] in ('wake', 'wake_by_ref')]
+        for bi, st in sites:
+            n_pend += 1
+            ok = any(x == bi or x in dom.get(bi, ()) for x in inner) or any(x == bi or x in dom.get(bi, ()) for x in wakes)
+            instances.append({'rule': 'R-AWAITED(pending)', 'function': b.q, 'at': st['loc'], 'behind_an_inner_pending_or_a_wake': ok})
+            if not ok:
+                finding('R-AWAITED', b.q, 'pending-without-waker', 'Poll::Pending is returned at %s without anything having been polled with the caller\'s context on that path '
+                        '(and without a call of the waker): nothing will wake the task again, it hangs' % st['loc'])
+    if n_pend < 5:
+        finding('R-AWAITED', '-', 'floor-pending', 'expected the Pending returns of the readers and the chunker (ready! expansions), found %d (cannot decide)' % n_pend)
     # ---------------------------------------------------------------- R-AWAITED(cancel): no step of the clone / compress paths is raced against a timer
     # `select!` (and `timeout`, `future::select`) drops the future that loses.  The steps here are not cancel-safe: `feed` has taken
     # the chunk out of the index before it writes, a chunk taken from the stream and half written to the temp file is gone - the
